@@ -1,6 +1,6 @@
 """C15 — every strong handle kind keeps the actor fully functional, not just reachable."""
 import core, graph, own
-from mir import Body, Origin
+from mir import Body, Origin, agg_sites
 
 EXPL = ("Ownership graph (A2) + provenance (A3). Needed set = pointee types of every Weak::upgrade in the context "
         "operations and in the upgrade closures of the weak kinds (what self-stop, self-restart, timers and weak "
@@ -11,7 +11,40 @@ EXPL = ("Ownership graph (A2) + provenance (A3). Needed set = pointee types of e
         "R15.3: the birth site wires address and context to the same channel, id and termination future.")
 
 HANDLE_ADTS = ["addr::Addr", "addr::OwningAddr", "addr::sender::Sender", "addr::caller::Caller", "addr::weak_addr::WeakAddr", "addr::weak_sender::WeakSender", "addr::weak_caller::WeakCaller"]
-IDENTITY_SUFFIX = ("::clone_box", "::upgrade", "::downgrade", "::zip", "::clone", "::to_owned", "Try::branch", "::map", "::as_ref", "::cloned", "::unwrap_or_default")
+IDENTITY_SUFFIX = ("::clone_box", "::upgrade", "::downgrade", "::zip", "::clone", "::to_owned", "Try::branch", "::map", "::as_ref", "::cloned", "::unwrap_or_default", "::ok_or", "::ok_or_else")
+FIRST_ARG_ONLY = ("::ok_or", "::ok_or_else")  # the second argument is the error to report, not a source of the value
+
+
+FX = [None]  # facts of the configuration being checked, set by the property modules (lets `roots` look into local helpers)
+
+
+def _through_repackaging(b, t, o, depth):
+    """a field of the struct a crate-local synchronous function returns, when that function merely re-packages its
+    parameters (`fn into_ingredients(self) -> Ingredients { Ingredients { actor, config, channel } }`): the roots of the
+    corresponding argument at this call site"""
+    fx = FX[0]
+    if fx is None or not o.proj or depth > 4:
+        return None
+    h = fx.callee_fn(t)
+    if h is None or h.get("is_async") or h["kind"] not in ("fn", "assoc_fn"):
+        return None
+    hb = Body(h)
+    lits = [st for _b2, _s2, st in agg_sites(hb) if st["p"] == [0] and st["r"].get("ak") in ("adt", "tuple")]
+    if len(lits) != 1 or len([1 for _b3, t3 in hb.normal_calls() if not (t3.get("callee") or "").startswith(("core::", "log::", "std::"))]) > 0:
+        return None
+    fld = o.proj[0]
+    if not (fld.startswith("f") and fld[1:].isdigit()) or int(fld[1:]) >= len(lits[0]["r"]["ops"]):
+        return None
+    ho = hb.origins(lits[0]["r"]["ops"][int(fld[1:])])
+    if not ho or not all(x.kind == "arg" and x.site - 1 < len(t["args"]) for x in ho):
+        return None
+    out = set()
+    for x in ho:
+        a = t["args"][x.site - 1]
+        if a.get("k") in ("copy", "move") and x.proj:
+            a = dict(a, p=list(a["p"]) + list(x.proj))
+        out |= roots(b, a, depth + 1)
+    return out
 
 
 def roots(b, operand, depth=0):
@@ -22,8 +55,12 @@ def roots(b, operand, depth=0):
             t = b.call_at(o)
             c = t.get("callee") or ""
             if c.endswith(IDENTITY_SUFFIX) and t["args"]:
-                for a in t["args"][:2]:
+                for a in (t["args"][:1] if c.endswith(FIRST_ARG_ONLY) else t["args"][:2]):
                     out |= roots(b, a, depth + 1)
+                continue
+            rep = _through_repackaging(b, t, o, depth)
+            if rep is not None:
+                out |= rep
                 continue
             out.add(Origin("call:" + c, o.site, ()))
         elif o.kind == "agg" and depth < 6:
@@ -174,6 +211,25 @@ def check_cfg(ctx, fx, cfg):
                     for fld, o in zip(st["r"]["fields"], st["r"]["ops"]):
                         rs = roots(b, o)
                         det["%s.%s" % (name, fld)] = sorted("%s:%s" % (r.kind, r.site) for r in rs)
+        # ... or built through a crate-local constructor that is a plain struct literal of its parameters (`Addr::from_parts`)
+        for bi, ct in b.normal_calls():
+            h = fx.callee_fn(ct)
+            if h is None or h.get("is_async") or not (h.get("output") or "").startswith(("addr::Addr<", "context::Context<")):
+                continue
+            hb = ctx.body(fx, h)
+            lits = [st for _b2, _s2, st in agg_sites(hb, ak="adt") if st["r"].get("def") in ("addr::Addr", "context::Context") and st["p"] == [0]]
+            if len(lits) != 1:
+                continue
+            name = lits[0]["r"]["def"].split("::")[-1]
+            for fld, o in zip(lits[0]["r"]["fields"], lits[0]["r"]["ops"]):
+                ho = hb.origins(o)
+                if ho and all(x.kind == "arg" and not x.proj and x.site - 1 < len(ct["args"]) for x in ho):
+                    rs = set()
+                    for x in ho:
+                        rs |= roots(b, ct["args"][x.site - 1])
+                    det["%s.%s" % (name, fld)] = sorted("%s:%s" % (r.kind, r.site) for r in rs)
+                else:
+                    det["%s.%s" % (name, fld)] = ["?constructor"]
         # all channel fields must come from the one `channel` argument; the id from one ContextID::default()
         for k, v in det.items():
             fld = k.split(".")[1]
